@@ -70,7 +70,10 @@ RULE = ("random valid map requests (DAGs of 1..4 structural functions, generator
         "re-opened after every run; runs on an existing store: complete folder / resume after fixed_indices parts / "
         "fixed_indices on an empty folder or after another part, under the controlled executor (incl. eager starts), "
         "thread pools and (chains, thorough) process pools; structural functions that raise for some calls (error "
-        "class compared) } x { dict, file_array, shared_memory_dict, "
+        "class compared); fixed families on every seed: 'race' (thread pools with >= 3 workers and a slow disk over "
+        "file_array intermediates that are read repeatedly: outer product, broadcast, two consumers) and 'stale folder' "
+        "(partial folder left by fixed_indices runs or by a sequential run in which functions raised, then "
+        "shared_memory_dict x real process pools, folder re-opened) } x { dict, file_array, shared_memory_dict, "
         "per-function mixes; executor single / per output / default+overrides }; non-trivial = a generation with >= 2 "
         "tasks executed in a non-submission order, or a real pool; distinct by (specs, shapes, storages, executor, "
         "entry, schedules)")
@@ -92,7 +95,10 @@ TRUSTED = ["Model/ParGen.v mirrors the generation loop of pipefunc/map/_run.py b
            "Model/ParResume.v the same loop on an existing store (on top of Model/MapResume.v)",
            "harness/props/c03.py: controlled concurrent.futures.Executor, dump recorder (wrapping DictArray.dump / "
            "FileArray.dump), canonical log order",
-           "harness/mapsym.py structural user functions and canonicalisation of arrays"]
+           "harness/mapsym.py structural user functions and canonicalisation of arrays",
+           "slow-disk injection: FileArray's `load` is delayed by 1-2 ms in the 'race' thread-pool runs (harness only)",
+           "Corr/Resume_C03.store_of_trace: the folder left by a FAILED sequential run with storages that dump inside "
+           "the task = the dumps of MapResume's trace up to the failure (compared with the real folder on every run)"]
 
 TIMEOUT = 60.0
 DIS = {"dict": False, "file_array": True, "shared_memory_dict": True}
@@ -823,7 +829,7 @@ SWEEP_KINDS = ["dict", "dict", "file_array", "file_array", "mix", "mix", "shared
 
 def generate(rng, tier, mult):
     thorough = tier != "quick"
-    n_req = (12 if not thorough else 150) * mult
+    n_req = (12 if not thorough else 120) * mult
     k_random = 4 if not thorough else 10
     cases = []
     n_chain = 2 if not thorough else 8
